@@ -39,6 +39,7 @@ structure JState where
   commitPointLost : List Nat := []            -- start ts of txns with a commit-point RPC whose outcome the client could not learn
   lossy : List Nat := []                      -- start ts of txns with any dropped / lost request (C06 is conditional on none)
   crashed : List String := []                 -- crashed clients
+  inGC : List String := []                    -- clients inside a `gc` API call (their status checks are GC's batch resolution)
   deriving Repr
 
 def splitArrow (w : List String) : List String × List String :=
@@ -244,7 +245,7 @@ def step (j : JState) (line : String) : JState × String :=
       | (m, some e) => ({ j with mon := m }, s!"FAIL C04 {e}")
     | none => (j, "MISMATCH malformed-event")
   | "norpc" :: _id :: client :: cls :: cmd =>
-    let evs := evsOfRpc "norpc" client cls cmd []
+    let evs := evsOfRpc "norpc" (if j.inGC.contains client then "gc:" ++ client else client) cls cmd []
     let definite := cls.startsWith "regionerr"
     -- commit-point requests whose outcome the client cannot learn: the primary commit, and under async commit / 1PC
     -- every prewrite (C03)
@@ -272,7 +273,7 @@ def step (j : JState) (line : String) : JState × String :=
           let j1 := { j1 with commitPointLost := j1.commitPointLost ++ lostCommit, lossy := j1.lossy ++ lossy }
           if !answersAgree (cmd.headD "") modelAns rec_ then (j1, s!"MISMATCH store-answer model: {modelAns}")
           else
-            match runMon j1.mon (evsOfRpc kind client "" cmd ans) with
+            match runMon j1.mon (evsOfRpc kind (if j1.inGC.contains client then "gc:" ++ client else client) "" cmd ans) with
             | (m, none) => ({ j1 with mon := m }, "ok")
             | (m, some e) => ({ j1 with mon := m }, s!"FAIL C04 {e}")
       | _, _ => (j, "MISMATCH malformed-event")
@@ -285,7 +286,8 @@ def step (j : JState) (line : String) : JState × String :=
       let tail := (words line).drop 4
       if phase == "begin" then
         let p : Pending := { client := client', callNo := callNo, call := tail.headD "", args := tail.drop 1, ackAtBegin := j.maxAckedCommit }
-        let j1 := { j with pending := p :: j.pending.filter (·.callNo != callNo) }
+        let j1 := { j with pending := p :: j.pending.filter (·.callNo != callNo),
+                           inGC := if p.call == "gc" then client' :: j.inGC else j.inGC }
         if p.call == "commit" then
           match runMon j1.mon [.commitCalled client' (curOf j1 client')] with
           | (m, none) => ({ j1 with mon := m }, "ok")
@@ -295,7 +297,8 @@ def step (j : JState) (line : String) : JState × String :=
         match j.pending.find? (·.callNo == callNo) with
         | none => (j, "MISMATCH api end without begin")
         | some p =>
-          let j1 := { j with pending := j.pending.filter (·.callNo != callNo) }
+          let j1 := { j with pending := j.pending.filter (·.callNo != callNo),
+                             inGC := if p.call == "gc" then j.inGC.filter (· != p.client) else j.inGC }
           let st := curOf j1 p.client
           let okRes := tail.headD "" == "ok"
           let monEv (j : JState) (evs : List Ev) (extra : Option String) : JState × String :=
